@@ -9,6 +9,7 @@ import (
 	"github.com/plgd-dev/go-coap/v3/message"
 	"github.com/plgd-dev/go-coap/v3/message/codes"
 	"github.com/plgd-dev/go-coap/v3/message/pool"
+	"github.com/plgd-dev/go-coap/v3/pkg/verifhook"
 	"golang.org/x/exp/maps" // TODO: replace with standard maps package as soon as Go dependency hits 1.21
 )
 
@@ -220,6 +221,7 @@ func (r *Router) ServeCOAP(w ResponseWriter, req *Message) {
 		return
 	}
 	var h Handler
+	verifhook.Yield("mux.ServeCOAP.betweenLocks", 0)
 	matchedMuxEntry, _ := r.Match(path, req.RouteParams)
 	if matchedMuxEntry == nil {
 		h = defaultHandler
